@@ -21,6 +21,11 @@ pub struct StarkProverKnobs {
     /// helper columns are computed instead of the committed trace: a prover that keeps the
     /// auxiliary columns of one trace while committing to another.
     pub aux_trace: Option<Vec<Vec<u64>>>,
+    /// A prover that never commits to a quotient: it draws `zeta` without having sent a quotient
+    /// cap, then picks (linear) "quotient" polynomials whose value at `zeta` satisfies the
+    /// verifier's identity, opens them through FRI and omits the quotient cap from the proof.
+    /// Only for tables without cross-table lookups.
+    pub forge_quotient_after_zeta: bool,
 }
 
 static KNOBS: RwLock<Option<StarkProverKnobs>> = RwLock::new(None);
